@@ -6,8 +6,15 @@ CONSTANTS MaxLists, MaxItems
 VARIABLES st, hist
 Init == st = InitSt /\ hist = <<>>
 Next == /\ Len(st.lists) < MaxLists /\ Len(st.items) <= MaxItems
-        /\ \E e \in EventsOf(st) :
-              /\ EventOK(st, e) /\ st' = Step(st, e) /\ hist' = Append(hist, e)
+        /\ \E e \in EventsOf(st), rd \in {"", "keys", "pluck", "poke"} :
+              \* optionally a reader is called on the receiver first (readers do not change the state: at most one per event)
+              /\ LET pre == [x |-> e.x, o |-> 0, a |-> IF rd = "keys" THEN [op |-> "keys"]
+                                                       ELSE IF rd = "pluck" THEN [op |-> "pluck", k |-> "b"]
+                                                       ELSE [op |-> "poke", i |-> 0, v |-> 0]]
+                      mid == IF rd = "poke" /\ st.lists[e.x].its # <<>> THEN Step(st, pre) ELSE st IN
+                 /\ (rd = "poke" => st.lists[e.x].its # <<>>)
+                 /\ EventOK(mid, e) /\ st' = Step(mid, e)
+                 /\ hist' = IF rd = "" THEN Append(hist, e) ELSE Append(Append(hist, pre), e)
               /\ (Len(st'.lists) = MaxLists => PrintT(ToJson([hist |-> hist'])))
 Spec == Init /\ [][Next]_<<st, hist>>
 Inv == ModelInv(st)
